@@ -205,3 +205,41 @@ def insertion_discipline(tm, guard_adt):
                         kinds.add("other:" + short(n))
                     sites.append(ev)
     return kinds, sites
+
+
+def release_rules(ck, tm, g, rule):
+    """The release primitive has no call site outside the allocator's reject edge and the guard's destructor, and each
+    of them releases exactly a mapping the injector made (shared by C12 R12.3 and C03 R3.7)."""
+    allocs = set(allocator_fns(tm))
+    nfree = 0
+    for b in tm.facts.fn_bodies():
+        for name, foreign, local, t in tm.facts.callees_of(b):
+            if name in FREE_FFI:
+                nfree += 1
+                ok = b["path"] in allocs or b["path"] == g.drop_fn
+                ck.ob(rule, "release-site/%s" % short(b["path"]), tm.target, ok,
+                      "%s is called in %s (%s)" % (short(name), b["path"], "allocator reject edge / guard destructor" if ok else "NOT an owner of mappings"),
+                      "%s:%d" % (t["span"]["file"], t["span"]["line"]))
+    ck.floor(rule, "release-sites", nfree, 1 if tm.arch == "arm" else 2, tm.target)
+    for p in allocs:
+        try:
+            vs = allocator_variants(tm, p)
+        except Exception as e:
+            ck.ob(rule, "allocator/%s/analysable" % short(p), tm.target, False, "allocator could not be analysed: %s" % e)
+            continue
+        for v in vs:
+            frees = [e for e in v.trace if e.kind == "ffi" and e.name in FREE_FFI]
+            maps = [e for e in v.trace if e.kind == "ffi" and e.name in ALLOC_FFI]
+            if v.status == "returned":
+                ck.ob(rule, "allocator/%s/accepted-not-released" % short(p), tm.target, not frees,
+                      "accepting path releases %d mapping(s)" % len(frees))
+            for f in frees:
+                okp = maps and isinstance(f.args[0], Int) and same_expr(f.args[0].e, maps[-1].ret.e)
+                if tm.os == "windows":
+                    oks = f.args[1].is_const() and f.args[1].cval() == 0
+                else:
+                    oks = same_expr(f.args[1].e, maps[-1].args[1].e) if maps else False
+                ck.ob(rule, "allocator/%s/reject-releases-own-mapping" % short(p), tm.target, bool(okp and oks),
+                      "reject edge calls %s(%s, %s) for the mapping %s of size %s" % (short(f.name), fmt(f.args[0].e, 3), fmt(f.args[1].e, 3),
+                                                                                        fmt(maps[-1].ret.e, 3) if maps else "?", fmt(maps[-1].args[1].e, 3) if maps else "?"), where(f))
+
